@@ -427,6 +427,148 @@ theorem C14_soname_is_dt_soname (b : Blob) (h : Hdr) (phs : Array Phdr) (dynh : 
     simp only [f1, f2, f3, h1, h2, h3, Option.some_or, hlt, ↓reduceIte, hv]
   simp [this]
 
+/-! ### the fall-back identifier is the column-wise XOR of the hashed range -/
+
+theorem sliceGo_eq (b : Blob) (off k : Nat) (acc : Bytes) :
+    b.sliceGo off k acc = (List.range k).map (fun j => (b.get (off + j)).getD 0) ++ acc := by
+  induction k generalizing acc with
+  | zero => simp [Blob.sliceGo]
+  | succ k ih =>
+    simp only [Blob.sliceGo, ih, List.range_succ, List.map_append, List.map_cons, List.map_nil]
+    simp
+
+theorem slice_eq (b : Blob) (off k : Nat) :
+    b.slice off k = (List.range k).map (fun j => (b.get (off + j)).getD 0) := by
+  simp [Blob.slice, sliceGo_eq]
+
+theorem slice_take (b : Blob) (off len n : Nat) (h : n ≤ len) : (b.slice off len).take n = b.slice off n := by
+  simp only [slice_eq, ← List.map_take, List.take_range, Nat.min_eq_left h]
+
+theorem drop_range_map (n len : Nat) : (List.range len).drop n = (List.range (len - n)).map (fun j => n + j) := by
+  apply List.ext_getElem
+  · simp
+  · intro i h1 h2; simp
+
+theorem slice_drop (b : Blob) (off len n : Nat) : (b.slice off len).drop n = b.slice (off + n) (len - n) := by
+  simp only [slice_eq, ← List.map_drop, drop_range_map, List.map_map]
+  apply List.map_congr_left
+  intro a _; simp [Nat.add_assoc]
+
+theorem slice_take' (b : Blob) (off len n : Nat) : (b.slice off len).take n = b.slice off (min n len) := by
+  simp only [slice_eq, ← List.map_take, List.take_range]
+
+theorem slice_zero (b : Blob) (off : Nat) : b.slice off 0 = [] := by simp [slice_eq]
+
+/-- the fold over 16-byte chunks, on the bytes themselves -/
+def foldL : Nat → Bytes → Bytes → Bytes
+  | 0, acc, _ => acc
+  | fuel+1, acc, data => if data.length == 0 then acc else foldL fuel (xorInto acc (data.take 16)) (data.drop 16)
+
+theorem foldChunks_eq_foldL (b : Blob) (fuel off len : Nat) (acc : Bytes) :
+    foldChunks b fuel off len acc = foldL fuel acc (b.slice off len) := by
+  induction fuel generalizing off len acc with
+  | zero => simp [foldChunks, foldL]
+  | succ fuel ih =>
+    unfold foldChunks foldL
+    simp only [slice_length]
+    by_cases h0 : len = 0
+    · simp [h0]
+    · have hb : (len == 0) = false := by simpa using h0
+      simp only [hb, Bool.false_eq_true, ↓reduceIte]
+      rw [ih, slice_take', slice_drop]
+      by_cases h16 : 16 ≤ len
+      · rw [Nat.min_eq_left h16]
+      · have : min 16 len = len := by omega
+        rw [this]
+        have h1 : len - len = 0 := by omega
+        have h2 : len - 16 = 0 := by omega
+        rw [h1, h2, slice_zero, slice_zero]
+
+/-- the independent formulation: byte `i` of the identifier is the XOR of the bytes at positions
+    `i, i + 16, i + 32, …` of the hashed range -/
+def colXor (data : Bytes) (i : Nat) : UInt8 :=
+  ((List.range ((data.length + 15 - i) / 16)).map (fun j => data[i + 16 * j]?.getD 0)).foldl (· ^^^ ·) 0
+
+theorem foldl_xor_init (a : UInt8) (l : List UInt8) :
+    l.foldl (· ^^^ ·) a = a ^^^ l.foldl (· ^^^ ·) 0 := by
+  induction l generalizing a with
+  | nil => simp
+  | cons x xs ih =>
+    simp only [List.foldl_cons]
+    rw [ih (a ^^^ x), ih (0 ^^^ x), UInt8.zero_xor, UInt8.xor_assoc]
+
+theorem colXor_unfold (data : Bytes) (i : Nat) (hi : i < 16) :
+    colXor data i = (data.take 16)[i]?.getD 0 ^^^ colXor (data.drop 16) i := by
+  unfold colXor
+  by_cases hle : data.length ≤ i
+  · have h1 : (data.length + 15 - i) / 16 = 0 := by omega
+    have h2 : (data.length - 16 + 15 - i) / 16 = 0 := by omega
+    have h3 : (data.take 16)[i]? = none := by
+      rw [List.getElem?_eq_none_iff]; simp only [List.length_take]; omega
+    simp [h1, h2, h3]
+  · have hlt : i < data.length := by omega
+    have hn : (data.length + 15 - i) / 16 = ((data.drop 16).length + 15 - i) / 16 + 1 := by
+      simp only [List.length_drop]; omega
+    rw [hn, List.range_succ_eq_map, List.map_cons, List.foldl_cons, UInt8.zero_xor, foldl_xor_init]
+    congr 1
+    · simp [List.getElem?_take, hi]
+    · congr 1
+      rw [List.map_map]
+      apply List.map_congr_left
+      intro j _
+      simp only [Function.comp, List.getElem?_drop]
+      congr 2
+      omega
+
+theorem xorInto_get (a c : Bytes) (i : Nat) (hi : i < a.length) :
+    (xorInto a c)[i]?.getD 0 = a[i]?.getD 0 ^^^ c[i]?.getD 0 := by
+  induction a generalizing c i with
+  | nil => simp at hi
+  | cons x xs ih =>
+    cases c with
+    | nil => simp [xorInto]
+    | cons y ys =>
+      cases i with
+      | zero => simp [xorInto]
+      | succ i => simpa [xorInto] using ih ys i (by simpa using hi)
+
+theorem colXor_nil (i : Nat) : colXor [] i = 0 := by
+  have : (15 - i) / 16 = 0 := by omega
+  simp [colXor, this]
+
+theorem foldL_spec (fuel : Nat) (acc data : Bytes) (hf : data.length ≤ 16 * fuel) (ha : acc.length = 16)
+    (i : Nat) (hi : i < 16) :
+    (foldL fuel acc data)[i]?.getD 0 = acc[i]?.getD 0 ^^^ colXor data i := by
+  induction fuel generalizing acc data with
+  | zero =>
+    have : data = [] := List.eq_nil_of_length_eq_zero (by omega)
+    subst this
+    simp [foldL, colXor_nil]
+  | succ fuel ih =>
+    unfold foldL
+    by_cases h0 : data.length = 0
+    · have : data = [] := List.eq_nil_of_length_eq_zero h0
+      subst this
+      simp [colXor_nil]
+    · have hb : (data.length == 0) = false := by simpa using h0
+      simp only [hb, Bool.false_eq_true, ↓reduceIte]
+      have hlen : (xorInto acc (data.take 16)).length = 16 := by
+        rw [xorInto_length _ _ (by simp only [List.length_take]; omega)]; exact ha
+      rw [ih _ _ (by simp only [List.length_drop]; omega) hlen, xorInto_get _ _ _ (by omega), colXor_unfold data i hi,
+        UInt8.xor_assoc]
+
+/-- C14 (the fall-back identifier): byte `i` of the identifier derived from a text range is the XOR of the
+    range's bytes at positions `i, i+16, i+32, …` -/
+theorem C14_texthash_spec (b : Blob) (w : Win) (i : Nat) (hi : i < 16) :
+    (buildIdFromBytes b w)[i]?.getD 0 = colXor (b.slice w.base w.len) i := by
+  unfold buildIdFromBytes
+  rw [foldChunks_eq_foldL, foldL_spec _ _ _ (by simp only [slice_length]; omega) (by simp [zeros]) i hi]
+  have : (zeros 16)[i]?.getD 0 = 0 := by
+    unfold zeros
+    rw [List.getElem?_replicate]
+    split <;> rfl
+  rw [this, UInt8.zero_xor]
+
 /-! ### the hypotheses are satisfiable: the small ELF of the crate's own unit tests -/
 
 def tinyElf : Bytes := [
